@@ -19,22 +19,24 @@ import (
 )
 
 func init() {
+	extraCommands["clusternode"] = cluster.NodeMain
 	fw.Register(&fw.Property{
 		ID:    "C12",
 		Level: "fault_enumeration",
 		Rule: "one case = one cluster (1-2 leaders, 2-3 partitions, 1-2 followers per partition, real gRPC/TLS, TCP proxies on every follower-leader link) running a PRNG fault sequence of length 3-8 interleaved with batches of unique ids (value 3^j encoding) inserted through the leaders: " +
 			"stop/start follower (clean), restart follower from an older copy of its directory taken while it was stopped, restart leader, cut/restore link, delay link; " +
+			"half of the cases run every follower as a separate OS process and add real crash images: SIGKILL of a follower at an arbitrary instant, and a follower that kills itself at the n-th hit of an instrumented point of its flush / offset-file / apply protocol (tables with very different flush latencies, so the tables of a crash image are unevenly persisted), then restarts on the directory it left behind; " +
 			"after all faults are healed two rounds of barrier points establish convergence; then every table on every follower of partition p must decode to exactly the acknowledged ids routed to p (each once, none of another partition), redundant followers must be identical, and leader queries must equal a standalone database fed the same points; " +
 			"non-trivial = a fault hit while entries for that follower were submitted but not yet delivered or while it was down and missing batches; distinct by fault sequence",
-		Assumptions: []string{"followers are stopped cleanly (process kills of the store are C02's subject); directory copies are taken while the follower is stopped", "bounded progress: convergence is awaited for up to 180s, otherwise the case is inconclusive unless the leader-side queues are provably drained"},
+		Assumptions: []string{"in-process cases stop followers cleanly and copy directories only while the follower is stopped; process-mode cases produce crash images by real process kills (no power-loss model); leaders are restarted cleanly", "bounded progress: convergence is awaited for up to 180s, otherwise the case is inconclusive unless the leader-side queues are provably drained"},
 		Cases: func(tier string) int {
 			if tier == "quick" {
-				return 3
+				return 4
 			}
-			return 24
+			return 32
 		},
 		Batch:            1,
-		Workers:          3,
+		Workers:          4,
 		PanicIsViolation: true,
 		BatchTimeout:     25 * time.Minute,
 		Env:              []string{"VERIF_TIMER_DIV=10"},
@@ -46,8 +48,15 @@ func c12Dims(i int) map[string]interface{} {
 	return map[string]interface{}{"k": fmt.Sprintf("c%05d", i/30), "odd": i % 2}
 }
 
+// crash points a follower process can be told to kill itself at (hit while it applies and persists
+// replicated entries); the occurrence is drawn per use
+var c12CrashPoints = []string{"flush.start", "flush.afterHeader", "flush.row", "flush.afterWrite", "flush.afterSync", "flush.beforeRename", "flush.afterRename", "flush.afterSwap",
+	"offsets.afterWrite", "offsets.afterSync", "offsets.beforeRename", "flush.offsetsOnly", "rs.afterInsert", "remove.before", "remove.after"}
+
 func runC12(c *fw.Ctx) {
 	r := c.Rand
+	// odd cases: followers are separate OS processes that can be crashed
+	crashMode := c.Case%2 == 1
 	N := 2 + r.Intn(2)
 	nLeaders := 1 + r.Intn(2)
 	red := 1 + r.Intn(2)
@@ -64,11 +73,17 @@ func runC12(c *fw.Ctx) {
 	}
 	var cdefs []cluster.TableDef
 	var sdefs []dbh.TableDef
-	for _, t := range tables {
-		cdefs = append(cdefs, cluster.TableDef{Name: t.name, SQL: t.sql, Retention: 48 * time.Hour, MaxFlush: time.Duration(30+r.Intn(300)) * time.Millisecond, PartitionBy: t.partBy})
+	for ti, t := range tables {
+		maxFlush := time.Duration(30+r.Intn(300)) * time.Millisecond
+		if crashMode {
+			// very different flush latencies: at a crash the tables are persisted up to different offsets
+			maxFlush = []time.Duration{time.Duration(15+r.Intn(40)) * time.Millisecond, time.Duration(700+r.Intn(2000)) * time.Millisecond, time.Duration(100+r.Intn(300)) * time.Millisecond}[(ti+c.Case/2)%3]
+		}
+		cdefs = append(cdefs, cluster.TableDef{Name: t.name, SQL: t.sql, Retention: 48 * time.Hour, MaxFlush: maxFlush, PartitionBy: t.partBy})
 		sdefs = append(sdefs, dbh.TableDef{Name: t.name, SQL: t.sql, Retention: 48 * time.Hour, Stream: "inbound", PartitionBy: t.partBy})
 	}
-	cl, err := cluster.New(cluster.Config{Dir: c.Dir + "/cluster", Tables: cdefs, NumLeaders: nLeaders, NumPartitions: N, Redundancy: red, Proxied: true, QueryTimeout: 60 * time.Second})
+	cl, err := cluster.New(cluster.Config{Dir: c.Dir + "/cluster", Tables: cdefs, NumLeaders: nLeaders, NumPartitions: N, Redundancy: red, Proxied: true, QueryTimeout: 60 * time.Second,
+		ProcFollowers: crashMode, NodeBin: fw.BinDir() + "/" + c12NodeBin(c)})
 	if err != nil {
 		c.Inconclusive("cluster: %v", err)
 		return
@@ -117,11 +132,87 @@ func runC12(c *fw.Ctx) {
 	followers := cl.AllFollowers()
 	snapshots := map[*cluster.Node]string{}
 	faultDuringTraffic := false
+	crashes, crashPointsHit := 0, 0
 	insertBatch(40 + r.Intn(60))
 	steps := 3 + r.Intn(6)
 	for s := 0; s < steps; s++ {
 		f := followers[r.Intn(len(followers))]
-		switch r.Intn(8) {
+		kind := r.Intn(8)
+		if crashMode && r.Intn(2) == 0 {
+			kind = 8 + r.Intn(2)
+		}
+		switch kind {
+		case 8:
+			// crash the follower at an arbitrary instant, possibly with traffic right before
+			if !f.Up() {
+				if err := f.Start(); err != nil {
+					c.Inconclusive("restart failed: %v", err)
+					return
+				}
+			}
+			insertBatch(10 + r.Intn(50))
+			time.Sleep(time.Duration(r.Intn(60000)) * time.Microsecond)
+			f.Kill()
+			crashes++
+			note("step %d: SIGKILL follower %d.%d", s, f.Partition, f.ID)
+			faultDuringTraffic = true
+			if r.Intn(2) == 0 {
+				insertBatch(10 + r.Intn(40))
+			}
+			if err := f.Start(); err != nil {
+				c.Inconclusive("restart after kill failed: %v", err)
+				return
+			}
+			note("step %d: start follower %d.%d on the directory the kill left behind", s, f.Partition, f.ID)
+		case 9:
+			// the follower kills itself at the n-th hit of an instrumented point
+			if f.Up() {
+				if r.Intn(2) == 0 {
+					f.Stop()
+				} else {
+					f.Kill()
+					crashes++
+				}
+			}
+			pt := c12CrashPoints[r.Intn(len(c12CrashPoints))]
+			occ := 1 + r.Intn(6)
+			if pt == "rs.afterInsert" || pt == "flush.row" {
+				occ = 1 + r.Intn(80)
+			}
+			if err := f.StartWithEnv([]string{fmt.Sprintf("VERIF_CRASH=%s:%d", pt, occ)}); err != nil {
+				if f.Exited() {
+					// the point was reached while the node was still starting up: a crash image all the same
+					crashes++
+					crashPointsHit++
+					note("step %d: follower %d.%d restarted with crash point %s:%d and died at it during start-up", s, f.Partition, f.ID, pt, occ)
+				} else {
+					c.Inconclusive("restart with crash point failed: %v", err)
+					return
+				}
+			} else {
+				for b := 0; b < 4 && !f.Exited(); b++ {
+					insertBatch(15 + r.Intn(40))
+					f.WaitExit(time.Duration(300+r.Intn(1200)) * time.Millisecond)
+				}
+				if f.WaitExit(2 * time.Second) {
+					crashes++
+					crashPointsHit++
+					note("step %d: follower %d.%d restarted with crash point %s:%d and died at it", s, f.Partition, f.ID, pt, occ)
+				} else {
+					f.Kill()
+					crashes++
+					note("step %d: follower %d.%d restarted with crash point %s:%d (not reached), SIGKILL instead", s, f.Partition, f.ID, pt, occ)
+				}
+			}
+			faultDuringTraffic = true
+			if r.Intn(2) == 0 {
+				insertBatch(10 + r.Intn(40))
+			}
+			if err := f.Start(); err != nil {
+				c.Inconclusive("restart after crash failed: %v", err)
+				return
+			}
+			note("step %d: start follower %d.%d on the directory the crash left behind", s, f.Partition, f.ID)
 		case 0, 1:
 			if f.Up() {
 				f.Stop()
@@ -286,7 +377,7 @@ func runC12(c *fw.Ctx) {
 			missing := ""
 			for f, per := range want {
 				for tbl, keys := range per {
-					res := dbh.RunQuery(ctxBackground(), f.DB, "SELECT _points FROM "+tbl, true, nil)
+					res := f.Query(ctxBackground(), "SELECT _points FROM "+tbl, true)
 					have := map[string]bool{}
 					for i := range res.Rows {
 						if k, ok := res.Rows[i].Dims["k"].(string); ok {
@@ -320,13 +411,18 @@ func runC12(c *fw.Ctx) {
 	}
 	c.Obs("scenarios", 1)
 	c.Obs("fault_steps", int64(steps))
+	c.Obs("follower_crashes", int64(crashes))
+	c.Obs("follower_crash_points_hit", int64(crashPointsHit))
+	if crashMode {
+		c.Obs("scenarios_with_process_followers", 1)
+	}
 	c.Obs("ids_acknowledged", int64(len(acked)))
 	// exactly-once per follower table
 	for p, reps := range cl.Followers {
 		for _, t := range tables {
 			var firstDump string
 			for ri, f := range reps {
-				res := dbh.RunQuery(ctxBackground(), f.DB, "SELECT * FROM "+t.name, true, nil)
+				res := f.Query(ctxBackground(), "SELECT * FROM "+t.name, true)
 				if res.Failed() {
 					c.Violate("c12-query-error", "follower dump failed: %s", res.ErrString())
 					return
@@ -399,7 +495,15 @@ func runC12(c *fw.Ctx) {
 		}
 	}
 	c.Nontrivial(faultDuringTraffic)
-	c.Sample(map[string]interface{}{"partitions": N, "leaders": nLeaders, "followers_per_partition": red, "fault_sequence": history, "ids": nextID})
+	c.Sample(map[string]interface{}{"process_followers": crashMode, "partitions": N, "leaders": nLeaders, "followers_per_partition": red, "fault_sequence": history, "ids": nextID})
+}
+
+// c12NodeBin names the harness binary follower processes are started from (same build as the worker).
+func c12NodeBin(c *fw.Ctx) string {
+	if c.IsRace {
+		return "vcheck-race"
+	}
+	return "vcheck"
 }
 
 func sortedCopy(s []string) []string {
